@@ -5,16 +5,16 @@ from props import Prop, Stream, reg
 # are written by the spec encoder enc_wire whose decoding is Theorem insn_decode) => 'spec'.
 # c06.raw (malformed bytes), c06.insn (decoder only) and c06.at (lookup) mirror the code => 'model'.
 reg(Prop('C06', [
-    Stream('c06.insn', 20000, 1000000, 'model',
+    Stream('c06.insn', 20000, 300000, 'model',
            exhaustive='every opcode byte 0..255 x both vendors x address sizes 1,2,4,8 x both byte orders, two operand tails, in the CIE and in the FDE'),
-    Stream('c06.seq', 4, 5, 'spec', timeout=1500,
+    Stream('c06.seq', 4, 5, 'spec', timeout=3000,
            exhaustive='EVERY instruction sequence of length <= 4 (thorough <= 5, and length 6 over an 8-symbol sub-alphabet) over a 14-symbol alphabet (two registers, offsets {0,1,-1}, remember/restore_state, restore, def_cfa*, def_cfa_expression, advance_loc) x EVERY split into CIE initial instructions + FDE instructions, on heap storage; custom storage (2,3) wherever it can differ, (1,1) up to length 3 (4)'),
-    Stream('c06.lim', 3000, 300000, 'spec',
+    Stream('c06.lim', 3000, 100000, 'spec', timeout=1500,
            exhaustive='every storage {heap 4/192, (1,1), (2,3), inline (4,192), (8,256), Vec/Vec} x {cap-1,cap,cap+1} distinct rules set in the CIE / FDE / split, overwrite-at-limit, clear-then-add; remember_state depth {cap-2..cap+1} x {0,1,2,3} initial rules x pushes in CIE / FDE'),
-    Stream('c06.rand', 40000, 3000000, 'spec'),
-    Stream('c06.raw', 20000, 2000000, 'model',
+    Stream('c06.rand', 40000, 1000000, 'spec', timeout=1500),
+    Stream('c06.raw', 20000, 500000, 'model', timeout=1500,
            exhaustive='every opcode byte x 7 operand tails x both vendors, as the only FDE instruction and as the only CIE instruction'),
-    Stream('c06.at', 4000, 400000, 'model'),
+    Stream('c06.at', 4000, 100000, 'model', timeout=1500),
 ], level='proof', design_ref='§5 C06',
     clauses=[
         'insn_decode: parse_insn (enc_wire w ++ rest) = Ok (meaning w, rest) for all 28 encoded forms of every DW_CFA opcode, all operands in range, both vendors (negate_ra_state only under AArch64, else UnknownCallFrameInstruction); includes ULEB128/SLEB128 operand round trips against the model readers',
